@@ -3,7 +3,7 @@
 import json, os, sys, time, random
 
 sys.path.insert(0, os.path.dirname(os.path.abspath(__file__)))
-import vlib, pool
+import vlib, pool, conc
 from vlib import Infra
 
 # bounded exhaustive depth (max events per history) per family: quick, thorough  -- fitted to measured sizes
@@ -81,7 +81,7 @@ def run(pid, tier, seed):
     rnd = random.Random(seed)
     fams = pool.PROP_FAMILIES[pid]
     if tier == "quick":
-        fams = [f for f in fams if f != "spanner"][:3 if pid in ("C05", "C06", "C01", "C08") else 2] + (["spanner"] if "spanner" in fams else [])
+        fams = [f for f in fams if f != "spanner"][:3 if pid in ("C05", "C06", "C01", "C08", "C02") else 2] + (["spanner"] if "spanner" in fams else [])
     scratch = vlib.Scratch("pool-" + pid)
     try:
         binp = pool.build_pool_harness(scratch)
@@ -165,6 +165,26 @@ def run(pid, tier, seed):
             scripts.append({"id": "stress-0", "stress": "growth/conc", "seed": seed})
             scripts.append({"id": "conc-0", "stress": "conc", "seed": seed})
         verdict = pool.validate_trace(scratch, tr, "tv")
+        # --- concurrent sections: TLC-enumerated gate schedules (specs/LockSched.tla) replayed on the real code, judged through
+        # their linearizations by the same clauses (tools/conc.py)
+        conc_sum = None
+        cr = conc.run(scratch, pid, tier, seed)
+        if cr:
+            conc_sum = dict(cr["summary"], model_runs=cr["stats"])
+            verdict["bad"] += cr["bad"]
+            for c_, n_ in cr["cnt"].items():
+                verdict["cnt"][c_] = verdict["cnt"].get(c_, 0) + n_
+            verdict["n"] += cr["n"]
+            for sid_, sc_ in cr["scripts"].items():
+                if sid_ in cr["traces"]:
+                    scripts.append(sc_)
+            scripts.append({"id": "conc-sections", "scenarios": cr["summary"]["scenarios"], "schedules": cr["summary"]["schedules_replayed"]})
+            with open(tr, "a") as fo:
+                for sid_, lns_ in cr["traces"].items():
+                    fo.writelines(lns_)
+            for st_ in cr["stats"]:
+                states += st_.get("distinct") or 0
+                transitions += st_.get("generated") or 0
         text_stats = None
         if pid == "C17":
             # configuration text: TLC-enumerated configuration records rendered as JSON, parsed by the real ParseConfig,
@@ -295,6 +315,7 @@ def run(pid, tier, seed):
             "config_text": text_stats,
             "binding_demo": binding,
             "mechanism_conformance": drift,
+            "concurrent_sections": conc_sum,
             "explanation": "TLC checks mechanism => clauses on specs/Pool.tla for every history up to max_events events per family "
                            "(states/transitions) and simulates deeper; every generated history is executed against the real balancer/picker "
                            "and TLC evaluates the clauses of specs/PoolGhost.tla on every recorded event (specs/PoolTrace.tla).",
